@@ -40,7 +40,7 @@ def show(E):
     if t in ('bind', 'mono'):
         ks = ','.join('%s=%s%s' % (kd['k'], kd['m'][0], [(v['s'] or v['n']) if not v['r'] else 'R%s' % v['n'] for v in kd['vs']])
                       for kd in E['ks'])
-        return '%s(%s%s)' % (t, (E.get('s', '') + ';') if t == 'mono' else '', ks)
+        return '%s%s(%s%s)' % (t, '_artic' if E.get('ar') else '', (E.get('s', '') + ';') if t == 'mono' else '', ks)
     if t in ('seq', 'par', 'chain'):
         return '%s(%s)' % (t, ', '.join(show(x) for x in E['l']))
     return '%s(%s%s, %s)' % (t, E['x'], (' tol %s' % E['tl']) if E.get('tl') else '', show(E['p']))
@@ -145,17 +145,28 @@ class Gen:
             ks[-1] = dict(ks[-1], m='list', vs=[ks[-1]['vs'][0]] * n)
         return dict(t='bind', ks=ks)
 
-    def mono(self, endless=False):
-        b = self.bind(endless, instrument=self.r.choice(['vg', 'vn', 'vx']))
+    def mono(self, endless=False, artic=None):
+        r = self.r
+        artic = (r.random() < 0.5) if artic is None else artic
+        b = self.bind(endless, instrument=r.choice(['vg', 'vn', 'vx']))
         ks = [kd for kd in b['ks'] if kd['k'] not in ('instrument', 'send_gate', 'add_action')]
-        # the first event of a voice must sound (a rest there is outside the spec)
-        for kd in ks:
-            if kd['vs'][0]['r']:
-                kd['vs'][0] = V(kd['vs'][0]['n'] or 64 * 60)
+        if artic:
+            # explicit sustain / delta / legato keys that decide the slurs (and may disagree with one another)
+            have = {kd['k'] for kd in ks}
+            n = r.randint(2, 5)
+            for k, vals in (('legato', [8, 16, 32, 40, 64]), ('sustain', [4, 12, 20, 40, 48]), ('delta', [4, 8, 16, 24, 40])):
+                if k not in have and r.random() < 0.45:
+                    ks.append(dict(k=k, vs=[V(r.choice(vals))], m='k', x=0) if endless or r.random() < 0.3 else
+                              dict(k=k, vs=[V(r.choice(vals)) for _ in range(n)], m='list', x=0))
+        else:
+            # the first event of a plain voice must sound (a rest there is outside the spec)
+            for kd in ks:
+                if kd['vs'][0]['r']:
+                    kd['vs'][0] = V(kd['vs'][0]['n'] or 64 * 60)
         inst = [kd for kd in b['ks'] if kd['k'] == 'instrument'][0]['vs'][0]['s']
         if not endless and all(kd['m'] == 'k' for kd in ks):     # a voice that is not under a Pdur must end
             ks[0] = dict(ks[0], m='list', vs=[ks[0]['vs'][0]] * self.r.randint(1, 4))
-        return dict(t='mono', s=inst, ks=ks)
+        return dict(t='mono', s=inst, ks=ks, ar=artic)
 
     def prog(self):
         r = self.r
@@ -176,9 +187,11 @@ class Gen:
         if c < 0.8:
             over = dict(t='bind', ks=[dict(k=k, vs=[V(v)], m='k', x=0) for k, v in
                                      r.sample([('amp', 128), ('ctranspose', 64), ('legato', 16), ('stretch', 64), ('pan', 1024)], 2)])
-            return dict(t='chain', l=[over, b()])
-        if c < 0.88:
+            return dict(t='chain', l=[over, b() if r.random() < 0.75 else self.mono()])
+        if c < 0.84:
             return self.mono()
+        if c < 0.88:
+            return dict(t='seq', l=[self.mono(artic=True), b()])
         if c < 0.95:
             return dict(t='par', l=[self.mono(), b()])
         return dict(t='dur', x=r.choice([12, 20, 36]), p=self.mono(endless=True), tl=r.choice([0, 0, 8]))
@@ -207,7 +220,7 @@ def run_cases(ctx, lookups, plays):
         for i in late[:3]:
             o = ctx.run_driver(DRIVER, dict(lookups=[], plays=[byid[i]], timeout=60.0), mode='nrt')
             again[i] = o['traces'][0]
-        if late[3:] and all(t['exc'] != 'timeout' for t in again.values()):      # it was the load: repeat the rest too
+        if late[3:] and len(late) <= 20 and all(t['exc'] != 'timeout' for t in again.values()):      # it was the load: repeat the rest too
             o = ctx.run_driver(DRIVER, dict(lookups=[], plays=[byid[i] for i in late[3:]], timeout=60.0), mode='nrt', timeout=3600)
             again.update({t['id']: t for t in o['traces']})
         traces = [again.get(t['id'], t) for t in traces]
@@ -249,7 +262,9 @@ def judge(ctx, traces):
             keyset = {kd['k'] for b in _binds(t['E']) for kd in b['ks']}
             feature = 'mono' if 'mono' in ks else ks[0]
             # more specific input classes first (so that a listed finding does not hide other violations)
-            if 'scale' in keyset and (why.startswith('missing-bundle') or why == 'end-time'):
+            if any(x['t'] == 'chain' and 'mono' in kinds(x['l'][1]) for x in _nodes(t['E'])) and why.startswith('parameter'):
+                feature = 'chain-over-mono'
+            elif 'scale' in keyset and (why.startswith('missing-bundle') or why == 'end-time'):
                 feature = 'explicit-scale'
             elif any(v['r'] for b in _binds(t['E']) for kd in b['ks'] if kd['k'] == 'dur' for v in kd['vs']) \
                     and why.startswith(('missing-bundle', 'end-time', 'time')):
@@ -382,13 +397,13 @@ MANIFEST = dict(
           'note -> midinote (+ctranspose) -> freq (*harmonic + detune); db or velocity -> amp; dur/stretch/legato -> delta/sustain), '
           '(ii) the bundles a note event sends (/s_new at logical time + latency with instrument, fresh id, add action, group and '
           '(control, value) pairs in description order; gate-off /n_set after sustain iff the instrument has a gate; rests nothing) and '
-          '(iii) the event sequences of Pbind, Pmono, Ppar (FIFO merge by absolute time), Pchain, Pdur/Pconst clipping, Pdelta, Pseq '
+          '(iii) the event sequences of Pbind, Pmono (plain and articulated: slur iff sustain >= delta), Ppar (FIFO merge by absolute time), Pchain, Pdur/Pconst clipping, Pdelta, Pseq '
           'and the resulting time-ordered score. TLC enumerates events over key subsets and small programs, checks laws of the '
           'oracle, and every enumerated and seeded-random case is executed on the real code in NRT mode and validated by TLC '
           'bundle by bundle (times exact, ids by freshness/binding, parameters in order).'),
     note=('Not decided: MidiCps/DbAmp values off the exact lattice beyond a 1e-7 inverse-projection, non-equal-tempered tunings, '
           'fractional degrees, inverse chains (freq -> midinote -> degree), MIDI events, RT clocks, tempo other than 1, strum/lag/'
-          'timing offset keys, Pmono voices whose first event is a rest or that are cut by a non-outermost Pdur. Trusted: TLC, the '
+          'timing offset keys, plain Pmono voices whose first event is a rest, voices cut by a non-outermost Pdur. Trusted: TLC, the '
           'driver projections (rounding to the lattices stated in spec/Event.tla).'),
     technique='TLA+ oracle for key chains and event scores evaluated by TLC on enumerated and random events/programs + batch trace validation of NRT scores',
     design_ref='DESIGN.md section 3 / C14',
